@@ -19,7 +19,7 @@ SHAPES = [(1, 2), (2, 2), (2, 3)]
 
 
 def cfg_seeded(tier, seed):
-    out = [{'fn': f, 'shape': list(s)} for f in ('poisson', 'poisson-any-sign', 'gaussian', 'read_noise', 'dark', 'dark-fpn', 'rule07') for s in SHAPES]
+    out = [{'fn': f, 'shape': list(s)} for f in ('poisson', 'poisson-any-sign', 'gaussian', 'read_noise', 'read_noise-int', 'dark', 'dark-fpn', 'rule07') for s in SHAPES]
     return out, len(out), True
 
 
@@ -52,6 +52,13 @@ def run_seeded(W, cfg):
         out = D.shot_noise(img, method='gaussian', seed=seed)
         N0 = W.std_normal(seed, 0, shp)
         W.ob('result = trunc(signal + sqrt(signal) * N0)', out, W.array([[W.fix(img[i, j] + W.sqrt(img[i, j]) * N0[i, j]) if W.sym else rnp.floor(rnp.trunc(img[i, j] + rnp.sqrt(img[i, j]) * N0[i, j])) for j in range(shp[1])] for i in range(shp[0])]))
+    elif fn == 'read_noise-int':
+        # an integer-typed frame (e.g. a digitised image): the noise must not be truncated to the frame's dtype
+        img = rnp.arange(shp[0] * shp[1], dtype=rnp.int64).reshape(shp) * 3
+        el = W.real('electrons', pos=True)
+        out = D.read_noise(img, el, seed=seed)
+        N0 = W.std_normal(seed, 0, shp)
+        W.ob('integer frame: result = frame + electrons * N0', out, W.array([[int(img[i, j]) + el * N0[i, j] for j in range(shp[1])] for i in range(shp[0])]))
     elif fn == 'read_noise':
         img = W.reals('img', shp)
         el = W.real('electrons', pos=True)
@@ -125,12 +132,29 @@ def run_ps(W, cfg):
 
 
 def cfg_cosmic(tier, seed):
-    out = [{'case': c} for c in ('many', 'fraction')]
+    out = [{'case': c} for c in ('many', 'fraction', 'frame')]
     return out, len(out), True
 
 
 def run_cosmic(W, cfg):
     D = W.mod('detector')
+    if cfg['case'] == 'frame':
+        # concrete-only: the ray tracer is not encoded; the returned frame must have the requested shape and be finite and non-negative
+        # for every state of the global generator tried (including states that produce no ray at all)
+        def frames_ok():
+            import numpy as _np
+            lt_ = W.lentil
+            for sd in range(6):
+                for ts in (1.0, 1500.0, 20000.0):
+                    _np.random.seed(sd)
+                    fr = lt_.detector.cosmic_rays((6, 9), (5e-6, 5e-6), ts)
+                    if _np.shape(fr) != (6, 9) or not _np.all(_np.isfinite(fr)) or _np.any(_np.asarray(fr) < 0):
+                        return False
+            return True
+        W.ob_concrete('cosmic_rays returns a finite, non-negative frame of the requested shape for every generator state tried', frames_ok)
+        x = W.real('unused')
+        W.ob('anchor', x, x)
+        return
     if cfg['case'] == 'many':
         ts = W.real('ts', lo=1, hi=100)
         n = D._nrays((10, 20), (1e-3, 1e-3), ts, 4e4)
@@ -145,5 +169,5 @@ def run_cosmic(W, cfg):
 HARNESSES = {
     'seeded': {'configs': cfg_seeded, 'run': run_seeded, 'small': 64, 'validate_paths': 1},
     'power_spectrum': {'configs': cfg_ps, 'run': run_ps, 'small': 8, 'validate_paths': 1},
-    'cosmic_count': {'configs': cfg_cosmic, 'run': run_cosmic, 'small': 8, 'validate_paths': 0},
+    'cosmic_count': {'configs': cfg_cosmic, 'run': run_cosmic, 'small': 8, 'validate_paths': 1},
 }
